@@ -5,6 +5,8 @@ from univers.version_constraint import VersionConstraint
 
 MODULES = ["Univers.Props.C08", "Univers.Props.Schemes"]
 LEVEL = "proof"
+# function-level tie (translator + agreement theorems): see runner step 3a
+TIE_THEOREMS = {"Univers.Vers.GenSimplifyThm": ["Univers.Gen.LayerB.deduplicate_eq", "Univers.Gen.LayerB.simplify_constraints_eq", "Univers.Gen.LayerB.con_simplify_eq"]}
 RULE = ("bounded-exhaustive: every comparator sequence up to length L on version-sorted distinct versions (well-formed "
         "or not), plus variants with exact duplicates, on real versions of every hashable scheme; the real "
         "VersionConstraint.simplify is compared with the Lean model, and whenever they differ the four clauses of the "
@@ -19,7 +21,7 @@ def is_sublist(a, b):
 
 
 def correspondence(ctx):
-    L = 6 if ctx.thorough else 4
+    L = 6 if ctx.thorough else (5 if ctx.deepen else 4)
     rng0 = ctx.rng("c08-lines")
     jobs = []
     for n in range(0, L + 1):
